@@ -8,7 +8,7 @@ package dtlshandshake
 //symgo:replace github.com/pion/dtls/v3/internal/negotiation.ValidateHelloRetryRequest zzFakeValidateHRR
 //symgo:stub time.NewTimer is a harness fake (see fsm13.go)
 //symgo:stub commitPreparedFlights (transcript hashing / key schedule of an outgoing flight) is replaced by a no-op; it sends nothing in the real code
-//symgo:stub negotiation.ValidateHelloRetryRequest (consistency of the HelloRetryRequest with the recorded ClientHello) is replaced by a stub that accepts
+//symgo:stub negotiation.ValidateHelloRetryRequest (consistency of the HelloRetryRequest with the recorded ClientHello) is replaced by a stub that accepts and reports what the request carries (cookie; cookie + selected group)
 //symgo:assume 0 < initial interval <= 60 s
 
 import (
@@ -18,6 +18,7 @@ import (
 	dtlsflight13 "github.com/pion/dtls/v3/internal/flight/flight13"
 	"github.com/pion/dtls/v3/internal/negotiation"
 	dtlsstate "github.com/pion/dtls/v3/internal/state"
+	"github.com/pion/dtls/v3/pkg/crypto/elliptic"
 	"github.com/pion/dtls/v3/pkg/protocol/handshake"
 )
 
@@ -25,8 +26,14 @@ func zzFakeCommitPrepared(Conn, *dtlsstate.State13, *Transcript, *dtlsconfig.Han
 	return nil
 }
 
+var zzFakeHRRSelectsGroup bool
+
 func zzFakeValidateHRR(negotiation.ClientHelloSnapshot, *handshake.MessageServerHello) (negotiation.RetryRequest, error) {
-	return negotiation.RetryRequest{}, nil
+	if zzFakeHRRSelectsGroup {
+		return negotiation.RetryRequest{HasCookie: true, HasSelectedGroup: true, SelectedGroup: elliptic.P384}, nil
+	}
+
+	return negotiation.RetryRequest{HasCookie: true}, nil
 }
 
 // DTLS 1.3 cookie request through the real prepare step: a server FSM whose retransmit flag is still set from
@@ -35,7 +42,7 @@ func zzFakeValidateHRR(negotiation.ClientHelloSnapshot, *handshake.MessageServer
 // Proved: exactly one datagram write (the HelloRetryRequest ServerHello), no write on any timer expiry, the
 // interval stays at the configured value, nothing is tracked for ACKs.
 //
-//symgo:entry covers=hrr_sent_once
+//symgo:entry covers=hrr_sent_once,hrr_with_selected_group
 func zzCookieFlightNoTimerResend13() {
 	k := zzsymParam("NTIMEOUT")
 	init := zzSymInit()
@@ -44,6 +51,13 @@ func zzCookieFlightNoTimerResend13() {
 	st := dtlsstate.NewState13(false)
 	st.Cookie = zzsymBytes("cookie", 4)
 	st.CipherSuite = ciphersuite.NewTLSAes128GcmSha256()
+	// the same HelloRetryRequest may also select a key-share group (client offered no share for the server's group):
+	// it still carries the cookie, and is still answered once per ClientHello, never by the timer (seed C17k-2)
+	zzFakeHRRSelectsGroup = zzsymChoice("selects_group", 2) == 1
+	if zzFakeHRRSelectsGroup {
+		st.SelectedGroup = elliptic.P384
+		zzsymCover("hrr_with_selected_group")
+	}
 	fsm := zzNewFSM13(&st, cfg, dtlsflight13.Flight2, zzFlightPackets(), true, init)
 
 	ctx := zzNewCtx()
